@@ -144,12 +144,22 @@ type EntityExpectation struct {
 	FlattenedKeysIn []string // messages where field "keys" is flattened
 }
 
+// EntityCamel: component names are derived from the CamelCase form of the
+// entity name (foo_bar, fooBar and FooBar all give FooBar).
+func EntityCamel(s string) string {
+	out := ""
+	for _, part := range strings.Split(s, "_") {
+		out += UpperFirst(part)
+	}
+	return out
+}
+
 func (k *EntityKey) isPrimary() bool { return k.Primary != nil && *k.Primary }
 
 func (rc *refCompiler) entity(f *File, e *Entity) {
 	pkg := f.Package()
 	file := f.Dir + "/" + f.Name + ".j5s.proto"
-	name := e.Name
+	name := EntityCamel(e.Name)
 	snake := Snake(LowerFirst(name))
 	msg := func(n string) string { return pkg + "." + name + n }
 
@@ -297,7 +307,7 @@ func EntityCases(thorough bool) []*Case {
 		commands  int
 		query     int
 	}
-	names := []string{"Foo", "FooBar", "Thing"}
+	names := []string{"Foo", "FooBar", "Thing", "fooBar", "foo_bar", "FooB"}
 	keySets := func(i int, name string) []*EntityKey {
 		id := LowerFirst(name) + "Id"
 		switch i {
@@ -331,7 +341,7 @@ func EntityCases(thorough bool) []*Case {
 	}
 	build := func(d dims) *Case {
 		name := names[d.name]
-		e := &Entity{Name: name, Keys: keySets(d.keys, name), Data: dataSets[d.data], Statuses: statusSets[d.statuses], Events: eventSets[d.events], Summaries: summarySets[d.summaries], Commands: mkCommands(d.commands, name)}
+		e := &Entity{Name: name, Keys: keySets(d.keys, EntityCamel(name)), Data: dataSets[d.data], Statuses: statusSets[d.statuses], Events: eventSets[d.events], Summaries: summarySets[d.summaries], Commands: mkCommands(d.commands, EntityCamel(name))}
 		switch d.query {
 		case 1:
 			e.HasQueryBlock, e.EventsInGet = true, true
@@ -354,7 +364,7 @@ func EntityCases(thorough bool) []*Case {
 			out = append(out, c)
 		}
 	}
-	lim := []int{3, 5, 3, 3, 3, 3, 3, 4}
+	lim := []int{6, 5, 3, 3, 3, 3, 3, 4}
 	get := func(d *dims, i int) *int {
 		return []*int{&d.name, &d.keys, &d.data, &d.statuses, &d.events, &d.summaries, &d.commands, &d.query}[i]
 	}
@@ -375,7 +385,7 @@ func EntityCases(thorough bool) []*Case {
 		}
 	}
 	if thorough {
-		for a := 0; a < 3; a++ {
+		for a := 0; a < 6; a++ {
 			for b := 0; b < 5; b++ {
 				for c := 0; c < 3; c++ {
 					for e := 0; e < 3; e++ {
